@@ -888,13 +888,35 @@ Theorem label_route_local : forall f : fw L, reachable f ->
   comp_store L leqb f (c_ids c) = Some cf ->
   (forall a, to_local_lab L leqb f cf a = cc_local c a) /\
   (forall a, to_local_lab L leqb f cf a = None <-> ~ In a (c_ids c)) /\
-  (forall al, locals_lab L leqb f cf al = locals c al).
+  (forall al, locals_lab L leqb f cf al = locals c al) /\
+  (forall al, Encoders.filter_map (to_local_lab L leqb f cf) al = Encoders.filter_map (cc_local c) al).
 Proof.
   intros f Hr c cf Hnd Hlive Hcs. pose proof (reach_inv L leqb leqb_spec f Hr) as Hinv.
   pose proof (to_local_lab_cc L leqb leqb_spec f c cf Hinv (conj Hnd Hlive) Hcs) as H.
-  split; [exact H|]. split.
+  split; [exact H|]. split; [|split].
   - intros a. rewrite H. apply cc_local_None.
   - exact (locals_lab_eq L leqb leqb_spec f c cf Hinv (conj Hnd Hlive) Hcs).
+  - intros al. induction al as [|a r IH]; cbn [Encoders.filter_map]; [reflexivity|].
+    rewrite H, IH. reflexivity.
+Qed.
+
+(* the entry of every acceptance query: the caller names arguments by label,
+     args.iter().map(|a| self.af.argument_set().get_argument(a).unwrap()) *)
+Theorem label_route_entry : forall f : fw L, reachable f -> forall l,
+  (forall a, In (a, l) (iter_args L f) -> get_argument_ref L leqb f l = Some (a, l)) /\
+  match get_argument_ref L leqb f l with
+  | Some p => snd p = l /\ In p (iter_args L f)
+  | None => forall a, ~ In (a, l) (iter_args L f)
+  end.
+Proof.
+  intros f Hr l. pose proof (reach_inv L leqb leqb_spec f Hr) as Hinv.
+  assert (H : forall a, In (a, l) (iter_args L f) -> get_argument_ref L leqb f l = Some (a, l)).
+  { intros a Ha. apply (get_argument_ref_live L leqb leqb_spec f a l Hinv).
+    now apply (arg_of_iter L f a l Hinv). }
+  split; [exact H|].
+  destruct (get_argument_ref L leqb f l) as [p|] eqn:E.
+  - exact (get_argument_ref_Some L leqb leqb_spec f l p Hinv E).
+  - intros a Ha. specialize (H a Ha). congruence.
 Qed.
 
 Theorem label_route_global : forall f : fw L, reachable f ->
@@ -1000,6 +1022,7 @@ Print Assumptions merged_comps_model.
 Print Assumptions label_route_component.
 Print Assumptions label_route_panic.
 Print Assumptions label_route_local.
+Print Assumptions label_route_entry.
 Print Assumptions label_route_global.
 Print Assumptions label_route_answer.
 Print Assumptions label_route_model_components.
